@@ -115,9 +115,21 @@ def sortKey (other : List String) (a : RAtom) : Bool × String :=
 def keyLe (x y : Bool × String) : Bool :=
   if x.1 == y.1 then !(decide (y.2 < x.2)) else !x.1
 
+/-- insert `x` before the first element that is not smaller -/
+def insertBy (le : α → α → Bool) (x : α) : List α → List α
+  | [] => [x]
+  | y :: ys => if le x y then x :: y :: ys else y :: insertBy le x ys
+
+/-- a STABLE sort (insertion sort from the right: an element is put before the first element that is
+not smaller, hence before every equal element that followed it in the input).  The result of a
+stable sort is determined by the input and the order, so this is `sorted(...)`. -/
+def stableSort (le : α → α → Bool) : List α → List α
+  | [] => []
+  | x :: xs => insertBy le x (stableSort le xs)
+
 /-- `sorted(graph, key=…)` (stable) -/
 def sortAtoms (atoms : List RAtom) (other : List String) : List RAtom :=
-  atoms.mergeSort fun a b => keyLe (sortKey other a) (sortKey other b)
+  stableSort (fun a b => keyLe (sortKey other a) (sortKey other b)) atoms
 
 /-- `{old: new for new, old in enumerate(sorted(...))}` as an association list in dictionary order -/
 def newLabels (atoms : List RAtom) (other : List String) : Map :=
